@@ -463,3 +463,67 @@ pub(crate) fn readv_iovecs<'a, B: BufMutSlice<N>, const N: usize>(f: &'a mut Rea
 pub(crate) fn writev_iovecs<'a, B: BufSlice<N>, const N: usize>(f: &'a mut WriteVectored<'_, B, N>) -> &'a [IoSlice; N] {
     &ops::resources_args(&mut f.state).0.1
 }
+
+//@ prop: C10
+//@ tier: quick
+//@ what: builder settings of the file composites reach BOTH the first request's arguments and the record the continuation offset is computed from: read_n(..).from(o), read_n_vectored(..).from(o), write_all(..).at(o), write_all_vectored(..).at(o) -- created through the public API, offset any u64; without the builder both are NO_OFFSET (current position)
+//@ bound: one buffer of capacity 6 / two of 3; offset any u64; builder applied or not (symbolic)
+//@ encodes: AsyncFd::{read_n,read_n_vectored,write_all,write_all_vectored}; io::{ReadN,ReadNVectored}::from; io::{WriteAll,WriteAllVectored}::at; io_uring::op::State::args_mut
+//@ stubs: crate::lock -> try_lock model; <core::io::CustomOwner as Drop>::drop -> no-op
+#[kani::proof]
+#[kani::unwind(4)]
+#[kani::stub(crate::lock, crate::verif_stubs::lock_model)]
+#[kani::stub(<core::io::CustomOwner as core::ops::Drop>::drop, crate::verif_stubs::custom_owner_drop_noop)]
+fn c10_io_builders() {
+    let fd = rig();
+    let o: u64 = kani::any();
+    let set: bool = kani::any();
+    let want = if set { o } else { NO_OFFSET };
+    let which: u8 = kani::any();
+    kani::assume(which < 4);
+    match which {
+        0 => {
+            let mut fut = fd.read_n(Vec::<u8>::with_capacity(6), 3);
+            if set {
+                fut = fut.from(o);
+            }
+            assert!(fut.offset == want && fut.left == 3, "continuation record has the offset");
+            let (_, a) = ops::resources_args(&mut fut.read.state);
+            assert!(*a == want, "first request has the offset");
+            std::mem::forget(fut);
+        }
+        1 => {
+            let mut fut = fd.read_n_vectored([Vec::<u8>::with_capacity(3), Vec::<u8>::with_capacity(3)], 4);
+            if set {
+                fut = fut.from(o);
+            }
+            assert!(fut.offset == want && fut.left == 4, "continuation record has the offset");
+            let (_, a) = ops::resources_args(&mut fut.read.state);
+            assert!(*a == want, "first request has the offset");
+            std::mem::forget(fut);
+        }
+        2 => {
+            let mut fut = fd.write_all(vec6(6, &[1, 2, 3, 4, 5, 6]));
+            if set {
+                fut = fut.at(o);
+            }
+            assert!(fut.offset == want, "continuation record has the offset");
+            let (r, a) = ops::resources_args(&mut fut.write.fut.state);
+            assert!(*a == want && r.skip == 0, "first request has the offset");
+            std::mem::forget(fut);
+        }
+        _ => {
+            let mut fut = fd.write_all_vectored([vec6(3, &[1, 2, 3, 4, 5, 6]), vec6(2, &[1, 2, 3, 4, 5, 6])]);
+            if set {
+                fut = fut.at(o);
+            }
+            assert!(fut.offset == want && fut.skip == 0, "continuation record has the offset");
+            let (_, a) = ops::resources_args(&mut fut.write.fut.state);
+            assert!(*a == want, "first request has the offset");
+            std::mem::forget(fut);
+        }
+    }
+    kani::cover!(which == 0 && set && o == 7);
+    kani::cover!(which == 3 && !set);
+    std::mem::forget(fd);
+}
